@@ -67,6 +67,12 @@ META = {
         "edge transforms are rigid or positive similarities; meshes without unreferenced vertices; scipy ConvexHull trusted for the reference hull volume.",
         "DESIGN.md section 4 C10",
     ),
+    "C11": (
+        "hypothesis meshes (rotated and integer-lattice versions) x planes aimed at vertices / edge midpoints / lattice points with integer normals so every sign pattern is produced on purpose; own oracle (exact signs, per-triangle interpolation, Sutherland-Hodgman clipping, point-triangle distance, volume / area)",
+        "Generated search: convex, non-convex, genus-1, multi-body and open meshes cut by general-position planes and by planes through vertices / edges with exact-zero dot products (all 10 triangle_cases codes and all 27 ordered sign patterns reached, measured), single planes, plane lists, section_multiplane, face subsets, cap engines earcut / triangle / manifold: section points on plane and on the named triangle, section equals the per-triangle intersection when no edge lies in the plane, closed loops on watertight meshes in general position, area(+)+area(-)=area with output triangles inside source triangles, capped volumes add up and halves of convex solids are watertight, multiplane equals single sections, subsets select. Exploration only.",
+        "exact clauses demanded only when the case is numerically resolved (documented tol.merge snapping windows excluded); path merge tolerance 1e-5 x scale allowed for closedness.",
+        "DESIGN.md section 4 C11",
+    ),
     "C12": (
         "hypothesis meshes under similarity placement with rays / query points built by construction in general position (margin filters with reported discard rate); brute-force oracle over all triangles (Moller-Trumbore, Ericson closest point, generalized winding number); both ray engines",
         "Generated search: pool meshes at scales 1e-3..1e4 and far offsets; rays aimed at triangle interiors from inside / outside / far origins, axis-aligned rays and misses, kept only when every brute-force hit is a fixed margin from edges, grazing and the origin; native and embree engines, single and multiple hits: the set of (ray, triangle) hits, locations on ray and triangle, first hit = nearest, any = non-empty, engines agree; contains vs winding number; nearest.on_surface / vertex / signed_distance vs the minimum over all triangles with the documented sign. Exploration only.",
